@@ -113,6 +113,11 @@ func hTripDescriptor(tag string, zone *time.Location, kinds int) hDesc {
 		s := vr.Str(tag + ".start_date.text")
 		vr.Assume(!startDateRegex.MatchString(s))
 		d.StartDate = &s
+	case 3: // concrete civil dates around daylight-saving transitions and date-line changes of the zones under test
+		s := vr.OneOf(tag+".start_date.special", "20240310", "20241103", "20240331", "20241027", "20111230", "20111231", "20240229")
+		d.StartDate = &s
+		want.HasStartDate = true
+		want.StartDate = time.Date(hAtoi(s[0:4]), time.Month(hAtoi(s[4:6])), hAtoi(s[6:8]), 0, 0, 0, 0, zone)
 	}
 	if !vr.Bool(tag + ".schedule_relationship.nil") {
 		sr := gtfsrt.TripDescriptor_ScheduleRelationship(vr.I32(tag + ".schedule_relationship"))
